@@ -293,7 +293,15 @@ def fraction_attr(kind, op, tag, diag):
     return ["C17"] if kind == "FrFromFloat" else ["C16"]
 
 
+def wide_jobs(tier):
+    sets = [0, 1, 2, 3] if tier == "quick" else [0, 1, 2, 3, 4]
+    jobs = [dict(src="h_wide.cpp", cc="gcc", tag="wide-gcc-%d" % k, defines=["WIDE_SET=%d" % k]) for k in sets]
+    jobs.append(dict(src="h_wide.cpp", cc="clang", tag="wide-clang-%d" % (vlib.seed() % 3), defines=["WIDE_SET=%d" % (vlib.seed() % 3)]))
+    return jobs
+
+
 FAMILIES = {
+    "wide": dict(jobs=wide_jobs, attr=lambda kind, op, tag, diag: ["C10"], record_timeout=1800),
     "fraction": dict(jobs=simple_jobs("h_fraction.cpp", "fraction"), attr=fraction_attr),
     "sqrt": dict(jobs=simple_jobs("h_sqrt.cpp", "sqrt"), attr=lambda kind, op, tag, diag: ["C19"]),
     "bits": dict(jobs=bits_jobs, attr=lambda kind, op, tag, diag: ["C18"]),
@@ -407,6 +415,21 @@ CHECKS = {
                "narrowed operand; recorded deviations must equal the as-coded model to count as the known finding.",
                "comparisons of elastic types are judged under C03; elastic_scaled_integer arithmetic under C01/C02 (values) "
                "with elastic reps; storage wider than 128 bits (wide_integer narrowest) not exercised here"),
+    "C10": chk(["wide"], [],
+               "events = every operator (+,-,*,/,%,&,|,^, unary -, ++/--, << / >> by 0..N-1 incl. limb multiples, the six "
+               "comparisons), conversions to/from 64/32-bit integers and double, numeric_limits and decimal stream output of "
+               "wide_integer<D, Narrowest> for D in {129,130,200,255,256,500,1000} (2048 and 65 in thorough), signed and "
+               "unsigned, limb types 8/16/32/64 bit; operands: limb-structured patterns (all-ones limbs, single bits at word "
+               "edges, 0x8000../0x7fff.. tops, (B^k-1)/(B-1) repunits, alternating) + seeded random with random limb sparsity; "
+               "multi-limb values are sliced from crepresentation() by the recorder; non-trivial = operand wider than 64 bits",
+               "TLA+ spec (SemWide: mathematical integers reduced to the N-bit two's-complement range with BigInt.Wrap, "
+               "truncated division, arithmetic right shift, RNE to double, canonical decimal numeral) evaluated by TLC on every "
+               "recorded event (trace validation)",
+               "each result must equal integer arithmetic modulo 2^N for the storage width N of the multi-limb representation; "
+               "the same patterns run through 8/16/32/64-bit limb types, so a limb-split dependence shows up as a rejection.",
+               "operator~ and mixed-width operators do not compile for multi-limb wide_integer and are not exercised; the "
+               "number of operand pairs per type is bounded (BigInt judging of 2048-bit quotients is slow); comparisons of "
+               "wide_integer (C03's clause) are judged here"),
     "C16": chk(["fraction"], [],
                "events = +,-,*,/ , unary -/+, the six comparisons, reduce, canonical, std::hash on pairs (n,d)/(k*n,k*d), and "
                "explicit conversion to float/double on cnl::fraction<T>, T = int8..int64; unary operations over every 8-bit "
